@@ -159,6 +159,44 @@ def main():
                           dict(method=m, what="scaling the tables of one EvolveConfig in place changed the tableau / Taylor coefficients a NEW EvolveConfig ships"))
             break
 
+    # ---- whatever sequence of constructions and attribute changes produced a config (callers flip `adaptive`, swap methods,
+    #      copy configs), the Taylor coefficients it carries are 1/k! for its order and its tableau is the method's own
+    seqs = 0
+    for trial in range(40):
+        r = np.random.default_rng(1000 * run.seed + trial)
+        try:
+            kw = {}
+            if r.random() < 0.5:
+                kw["adaptive"] = bool(r.random() < 0.5)
+            if r.random() < 0.3:
+                kw["taylor_order"] = int(r.integers(1, 9))
+            cfg = EvolveConfig(EvolveMethod.prop_and_compress, **kw)
+            hist = [dict(create=kw)]
+            for _ in range(int(r.integers(1, 5))):
+                act = str(r.choice(["adaptive=True", "adaptive=False", "copy", "toggle-twice"]))
+                if act == "adaptive=True":
+                    cfg.adaptive = True
+                elif act == "adaptive=False":
+                    cfg.adaptive = False
+                elif act == "copy":
+                    cfg = cfg.copy()
+                else:
+                    cfg.adaptive = not cfg.adaptive
+                    cfg.adaptive = not cfg.adaptive
+                hist.append(act)
+            te = cfg.taylor_config
+            k = len(te.coeff) - 1
+            exp = np.array([1.0 / math.factorial(i) for i in range(k + 1)])
+            seqs += 1
+            if te.order != k or np.max(np.abs(te.coeff / exp - 1)) > 4e-15:
+                run.violation("config:taylor-coefficients-after-attribute-changes",
+                              dict(history=hist, order=int(te.order), coeff=te.coeff.tolist(), expected=exp.tolist(),
+                                   what="the Taylor coefficients a config carries are not 1/k!"))
+                break
+        except Exception as e:  # noqa
+            run.count("config-sequence-raised:" + type(e).__name__)
+    run.count("config-sequences-checked", seqs)
+
     # ---- L1
     l1 = run.l1(["RenoVerif/Props/C19.lean"], ["RenoVerif/Gen/RKProps.lean"])
     gen_ok = l1["build_ok"]
